@@ -798,6 +798,7 @@ class Ev:
         self.syms = {}  # name -> Sym, for atoms used as dictionary keys
         self.ids = {}  # python id -> IdV, for id(x) used as dictionary keys
         self.input_reply = None  # what input() answers (Str), when the evaluated code may ask the user
+        self.ctor_models = {}  # class name -> python function(args, kwargs) giving the model of the constructed object
         self.model_calls = {}  # dotted name of an outside callable -> python function(args, kwargs) modelling it
         self.assume_valid = True  # argument validators (commonroad.common.validity.is_*) hold for the symbolic inputs
         self.instantiate = set()  # class names whose constructor is evaluated (an Obj is built) instead of recorded
@@ -1403,6 +1404,13 @@ class Ev:
             if sym is None:
                 raise AnalysisError("numeric operation %s at line %d" % (type(op).__name__, node.lineno))
             return Term(sym, [a, b])
+        if isinstance(op, (ast.BitAnd, ast.BitOr)) and all(isinstance(x, ListV) and "ndarray" in getattr(x, "ext_types", ()) and all(isinstance(i, bool) for i in x.items) for x in (a, b)) and len(a.items) == len(b.items):
+            # element-wise and / or of two boolean arrays
+            out = ListV([(x and y) if isinstance(op, ast.BitAnd) else (x or y) for x, y in zip(a.items, b.items)])
+            out.ext_types = {"ndarray"}
+            return out
+        if isinstance(op, (ast.BitAnd, ast.BitOr)) and isinstance(a, bool) and isinstance(b, bool):
+            return (a and b) if isinstance(op, ast.BitAnd) else (a or b)
         if isinstance(a, SetV) and isinstance(b, SetV) and isinstance(op, (ast.Sub, ast.BitOr, ast.BitAnd)):
             if isinstance(op, ast.Sub):
                 return SetV([x for x in a.items if not any(same(x, y) for y in b.items)])
@@ -1561,7 +1569,10 @@ class Ev:
             left = self.ev(e.left, env, mod)
             for op, c in zip(e.ops, e.comparators):
                 right = self.ev(c, env, mod)
-                if not self.compare(op, left, right, e):
+                r = self.compare(op, left, right, e)
+                if isinstance(r, ListV) and len(e.ops) == 1:
+                    return r  # element-wise comparison of arrays, answered by the oracle of the case
+                if not r:
                     return False
                 left = right
             return True
@@ -1674,6 +1685,8 @@ class Ev:
                                 raise _Raise(e, "missing argument %s for %s" % (n_, c.name), "TypeError")
                             vals[n_] = self.ev(d_, {"__mod__": c.mod}, c.mod)
                     return NamedTupV(c, names, [vals[n_] for n_ in names])
+                if c.name in self.ctor_models:
+                    return self.ctor_models[c.name](args, kwargs)
                 got = self.repo.find_method(c, "__init__")
                 if c.name in self.instantiate:
                     o = Obj(c, {}, closed=True)
@@ -2322,6 +2335,8 @@ class Ev:
                 return recv.items.pop()
         if isinstance(recv, ListV) and "ndarray" in getattr(recv, "ext_types", ()) and name == "tolist" and not args:
             return ListV(list(recv.items))
+        if isinstance(recv, ListV) and "ndarray" in getattr(recv, "ext_types", ()) and name in ("all", "any") and not args and all(isinstance(i, bool) for i in recv.items):
+            return all(recv.items) if name == "all" else any(recv.items)
         if isinstance(recv, ListV) and not isinstance(recv, TupV) and not isinstance(recv, SetV):
             if name == "append":
                 recv.items.append(args[0])
